@@ -191,14 +191,31 @@ def parse_graphml_text(text):
             "edgedefault": g.get("edgedefault"), "extra": sorted(set(c.tag for c in g) - {NS + "node", NS + "edge"})}
 
 
+_ROLES = None
+
+
+def json_roles():
+    """(id key, source key, target key) of the node-link objects, as the translator observes them on the code"""
+    global _ROLES
+    if _ROLES is None:
+        try:
+            from gen import serial
+            r = serial.probe_store()["shared"]["roles"]
+            _ROLES = (r["id"], r["source"], r["target"])
+        except Exception:
+            _ROLES = ("id", "source", "target")
+    return _ROLES
+
+
 def parse_json_text(text):
     o = json.loads(text)
+    idk, srck, tgtk = json_roles()
 
     def obj(d, reserved):
         return [[k, (["k", json.dumps(v)] if k in reserved else val(v))] for k, v in d.items()]
     return {"fmt": "json", "directed": o.get("directed"), "multigraph": o.get("multigraph"),
-            "nodes": [obj(d, ("id",)) for d in o["nodes"]],
-            "edges": [obj(d, ("source", "target")) for d in o["edges"]],
+            "nodes": [obj(d, (idk,)) for d in o["nodes"]],
+            "edges": [obj(d, (srck, tgtk)) for d in o["edges"]],
             "graph": o.get("graph"), "extra": sorted(set(o) - {"directed", "multigraph", "graph", "nodes", "edges"})}
 
 
@@ -376,8 +393,9 @@ def node_ids(im, gid):
     return [d.get("NodeID") for _, d in g.nodes(data=True) if d.get("GraphID") == gid]
 
 
-def doc_content(doc):
-    """canonical content of a parsed document, independent of internal ids, key ids and order"""
+def doc_content(doc, markup=True):
+    """canonical content of a parsed document, independent of internal ids, key ids and order;
+    markup=False leaves the label markup (checked separately) out"""
     if doc["fmt"] == "graphml":
         kt = {}
         for k in doc["keys"]:
@@ -396,9 +414,9 @@ def doc_content(doc):
             p = props(n[2], "node")
             me = [x[2] for x in p if x[0] == "NodeID"]
             nid[n[0]] = me[0] if me else None
-            nodes.append({"labels": n[1], "props": [x for x in p if x[0] != "GraphID"]})
-        edges = [{"ends": sorted([json.dumps(nid.get(e[0])), json.dumps(nid.get(e[1]))]), "label": e[2], "props": props(e[3], "edge")}
-                 for e in doc["edges"]]
+            nodes.append({"labels": n[1] if markup else None, "props": [x for x in p if x[0] != "GraphID"]})
+        edges = [{"ends": sorted([json.dumps(nid.get(e[0])), json.dumps(nid.get(e[1]))]), "label": e[2] if markup else None,
+                  "props": props(e[3], "edge")} for e in doc["edges"]]
     else:
         nid = {}
         nodes = []
